@@ -18,9 +18,13 @@ open MaestroVerif.Gen
 
 abbrev Str := List Char
 
-/-- ASCII `\s` -/
+/-- `\s` of a `str` pattern, and `str.isspace` (the same set): ASCII blank, tab, line feed, carriage
+return, vertical tab, form feed, the separators U+001C-U+001F, NEL, and the Unicode spaces -/
 def isWs (c : Char) : Bool :=
-  c == ' ' || c == '\t' || c == '\n' || c == '\r' || c == '\x0b' || c == '\x0c'
+  c == ' ' || c == '\t' || c == '\n' || c == '\r' || c == '\x0b' || c == '\x0c' ||
+  (0x1c ≤ c.toNat && c.toNat ≤ 0x1f) || c.toNat == 0x85 || c.toNat == 0xa0 || c.toNat == 0x1680 ||
+  (0x2000 ≤ c.toNat && c.toNat ≤ 0x200a) || c.toNat == 0x2028 || c.toNat == 0x2029 || c.toNat == 0x202f ||
+  c.toNat == 0x205f || c.toNat == 0x3000
 
 /-- `s.split(sep)` for a one-character separator -/
 def splitOnChar (sep : Char) : Str → List Str
